@@ -54,6 +54,11 @@ ChkXMiller(e) ==
     /\ LET P == AbsJ("G1", e.p)  Qp == AbsJ("G2", e.q)  want == Pair(P, Qp)
        IN /\ P = Dl("G1", e.ka) /\ Qp = Dl("G2", e.kb)
           /\ FinalExpOf(D12(e.m1)) = want /\ FinalExpOf(D12(e.m2)) = want
+\* drift check (coverage, not a verdict): MillerAlgo - the transcription of both loops that MC_MillerToy compares with the
+\* textbook pairing on the toy curve - evaluated at SM9 size must reproduce the code's EXACT Miller values
+MillerDrift(e) == LET P == AbsJ("G1", e.p)  Qp == AbsJ("G2", e.q)  QJ == << Qp[1], Qp[2], E2!One >>
+                  IN { IF MA!MillerG2(QJ, P) = D12(e.m1) THEN "drift.miller_g2.same" ELSE "drift.miller_g2.diff",
+                       IF MA!MillerPrepared(MA!Prepare(QJ), P) = D12(e.m2) THEN "drift.miller_prepared.same" ELSE "drift.miller_prepared.diff" }
 TowerOps == {"x.consts", "x.fq12.mul", "x.fq12.inv", "x.fq12.frob", "x.fq12.mul015", "x.fq12.pow", "x.fq12.scale",
              "x.fq4.mul", "x.fq4.mul1", "x.fq4.frob", "x.fe", "x.miller"}
 ChkTower(e) == CASE e.op = "x.consts" -> ChkXConsts(e)
